@@ -115,3 +115,13 @@ func (obj HashTable) LoadForm() Object {
 
 	return form
 }
+
+// CheckHashKey raises a type-error if key can not be used as a key in a
+// HashTable. A HashTable is a Go map so a key that is a Go slice or map, a
+// list, octets, or hash-table, can not be hashed.
+func CheckHashKey(s *Scope, depth int, key Object) {
+	switch key.(type) {
+	case List, Octets, HashTable:
+		TypePanic(s, depth, "key", key, "object other than a list, octets, or hash-table")
+	}
+}
